@@ -50,11 +50,15 @@ MCConfigs ==
     [] Family = "badline" ->
          {Mk(f, WithTrailing(c), b, 0, FALSE) : f \in FilesBad, c \in {x \in SeqsUpTo(PlainKinds, MaxLen) : ~PrintBeforeHead(x)}, b \in Bs}
     [] Family = "writerfail" ->
-         {Mk(f, WithTrailing(c), b, w, fe) : f \in FilesSmall, c \in {x \in SeqsUpTo(PlainKinds, MaxLen) : ~PrintBeforeHead(x)}, b \in Bs,
-              w \in {0, 1, 2, 3}, fe \in BOOLEAN} \ {Mk(f, WithTrailing(c), b, 0, FALSE) : f \in FilesSmall, c \in SeqsUpTo(PlainKinds, MaxLen), b \in Bs}
+         \* the last user verb is a pass-through (on the real binary it is the verb that makes the
+         \* werr-th record inexpressible in the output format)
+         {Mk(f, WithTrailing(c \o <<Cat>>), b, w, fe) : f \in FilesSmall,
+              c \in {x \in SeqsUpTo(PlainKinds, MaxLen - 1) \cup {<< >>} : ~PrintBeforeHead(x)}, b \in Bs,
+              w \in {0, 2, 3, 4}, fe \in BOOLEAN}   \* (a CSV writer cannot fail on its first record)
+           \ {Mk(f, WithTrailing(c \o <<Cat>>), b, 0, FALSE) : f \in FilesSmall, c \in SeqsUpTo(PlainKinds, MaxLen - 1) \cup {<< >>}, b \in Bs}
     [] Family = "twofaults" ->
-         {Mk(f, WithTrailing(c), b, w, FALSE) : f \in {<< Missing, <<1, 2, 3>> >>, << <<1, -2, 3>> >>},
-              c \in SeqsUpTo({V("fail", 1), V("fail", 2), V("cat", 0)}, MaxLen), b \in Bs, w \in {0, 1, 2}}
+         {Mk(f, WithTrailing(c \o <<Cat>>), b, w, FALSE) : f \in {<< Missing, <<1, 2, 3>> >>, << <<1, -2, 3>> >>, << <<1, 2>>, Missing, <<-3, 4>> >>},
+              c \in SeqsUpTo({V("fail", 1), V("fail", 2), V("cat", 0)}, MaxLen), b \in Bs, w \in {0, 2}}
     [] Family = "printhead" ->
          {Mk(<< <<1, 2, 3, 4, 5, 6>> >>, WithTrailing(<<V("print", 0), V("head", 1)>>), b, 0, FALSE) : b \in Bs}
 =============================================================================
